@@ -506,7 +506,8 @@ class The(ResultQuantifier[T]):
                 result = sources
             else:
                 raise NoSolutionFound(self._child_)
-        else:
+        elif self._var_:
+            # a set_of description has no single selected variable
             result[self._id_] = result[self._var_._id_]
         return result
 
